@@ -13,4 +13,7 @@ except LostAnchor as e:
 os.makedirs(os.path.join(root, "build"), exist_ok=True)
 open(os.path.join(root, "build", unit + ".rs"), "w").write(text)
 json.dump({"linemap": linemap, "log": log, "extracted": extracted}, open(os.path.join(root, "build", unit + ".map.json"), "w"), indent=1)
+for x in extracted:
+    if x.get("degraded"):
+        print("DEGRADED (contract only assumed):", x["name"], "--", x["degraded"])
 print("wrote build/%s.rs: %d lines, %d extracted items, %d rewrites" % (unit, text.count("\n"), len(extracted), len(log)))
